@@ -9,25 +9,25 @@ C == "127.0.0.3"
 Cfg == [BaseCfg EXCEPT !.default_modes = {"w"},
           !.operators = << [name |-> "god", pass |-> "godpass", mask |-> <<>>],
                            [name |-> "root", pass |-> "rootpass", mask |-> <<"*!*@127.0.0.2">>] >>]
-Pre == Reg(A, "alice", "u1") \o Reg(B, "bob", "u2") \o Reg(C, "carol", "u3")
+Pre == Reg(A, "alice", "u1") \o Reg(B, "bob", "u2") \o Reg(C, "Alice", "u3")
 UM(c, n, ms) == St(c, "MODE", <<<<n>>, <<ms>>>>)
 Acts ==
     { St(c, "OPER", <<<<n>>, <<p>>>>) : c \in {A, B}, n \in {"god", "root", "nobody"}, p \in {"godpass", "rootpass"} }
     \cup { UM(A, "alice", s \o l) : s \in {"+", "-"}, l \in {"i", "o", "O", "r", "w"} }
-    \cup { UM(A, "god", "+o"), UM(A, "god", "+O"), UM(A, "god", "-oO"), UM(A, "bob", "+i"), UM(A, "nobody", "+i"), UM(A, "alice", "+io-w+O"),
+    \cup { UM(A, "god", "+o"), UM(A, "god", "+O"), UM(A, "god", "-oO"), UM(A, "bob", "+i"), UM(A, "nobody", "+i"), UM(A, "Alice", "+i"), UM(C, "alice", "-o+w"), UM(C, "alice", "-O"), UM(A, "alice", "+io-w+O"),
            St(A, "MODE", <<<<"alice">>>>), St(A, "NICK", <<<<"god">>>>), St(A, "NICK", <<<<"alice">>>>), St(B, "NICK", <<<<"root">>>>) }
-    \cup { St(c, "KILL", <<<<"carol">>, <<"x">>>>) : c \in {A, B} }
+    \cup { St(c, "KILL", <<<<"Alice">>, <<"x">>>>) : c \in {A, B} }
     \cup { St(c, "WALLOPS", <<<<"attention">>>>) : c \in {A, B} }
     \cup { St(c, "STATS", <<<<"u">>>>) : c \in {A, B} }
     \cup { St(c, "DIE", <<>>) : c \in {A, B} } \cup { St(B, "SQUIT", <<<<"irc.irc">>, <<"bye">>>>), St(A, "SQUIT", <<<<"x.y">>, <<"bye">>>>) }
     \cup { St(c, "LUSERS", <<>>) : c \in {A, C} } \cup { St(C, "ISON", <<<<"alice", "god", "nobody", "alice">>>>), St(C, "USERHOST", <<<<"alice", "bob">>>>),
-           St(C, "MODE", <<<<"carol">>, <<"-w">>>>), St(A, "QUIT", <<>>), St(B, "!rst", <<>>), St(C, "WHOIS", <<<<"alice">>>>) }
+           St(C, "MODE", <<<<"Alice">>, <<"-w">>>>), St(A, "QUIT", <<>>), St(B, "!rst", <<>>), St(C, "WHOIS", <<<<"alice">>>>) }
 Enabled(st) == st.c \in DOMAIN S.conns
 Steps == {st \in Acts : Enabled(st)}
 Init == InitWith(Cfg, Pre)
 Next == NextWith(Steps)
 Spec == Init /\ [][Next]_vars
-Depth == 4
+Depth == 5
 Constraint == Len(hist) <= Len(Pre) + Depth
 ASSUME PrintT(<<"CFG", ToJson(CfgJson(Cfg))>>)
 =============================================================================
